@@ -24,8 +24,12 @@ import concurrent.futures as cf
 import multiprocessing as mp
 
 HERE = os.path.dirname(os.path.dirname(os.path.abspath(__file__)))
-EVIDENCE_DIR = os.path.join(HERE, 'evidence')
-REPLAY_DIR = os.path.join(HERE, 'replays')
+# VERIF_OUT_DIR: tooling runs against scratch trees (selftest, seedtest,
+# mutation sweep) write their evidence/replays elsewhere, so that
+# /verif/evidence always describes /repo
+_OUT = os.environ.get('VERIF_OUT_DIR') or HERE
+EVIDENCE_DIR = os.path.join(_OUT, 'evidence')
+REPLAY_DIR = os.path.join(_OUT, 'replays')
 KNOWN_FILE = os.path.join(HERE, 'known_findings.json')
 
 
